@@ -35,6 +35,9 @@ func runC18(c *eng.Ctx, tier string) {
 	includeOnly(c, "R-C18-5", func(sc *eng.Ctx) { runC20(sc, "quick") }, "R-C20-1")
 	// a lookup returns the handle of the name asked for, not of whatever lookup happened to be in flight
 	includeOnly(c, "R-C18-6", func(sc *eng.Ctx) { runC16(sc, "quick") }, "R-C16-2")
+	// R-C18-7: "the value later returned by ... a Store": whatever bytes the
+	// service answers with (empty included) are installed (C11's rule)
+	includeOnly(c, "R-C18-7", func(sc *eng.Ctx) { runC11(sc, "quick") }, "R-C11-8")
 	// R-C18-1
 	for _, row := range []struct{ name, want string }{
 		{"PutRequest", `{"Name":string "Value":base64}`},
